@@ -17,7 +17,7 @@ def run(tier):
         'classified reentrant or not from a reviewed table (an unclassified callee aborts the analysis, exit 2); (iii) every '
         'indirect call goes through a parameter or local; (iv) every function names only parameters, locals, such static objects '
         'and stdin/stdout/stderr. With (i)-(iv) a call can neither race with nor be influenced by another call on disjoint '
-        'arguments, for every schedule and history. R10.shared: the factors and permutations handed to the solve-side routines, and the matrix arrays the caller hands to the Fortran bridge, are in no may-write set, so calls that share them read-only cannot race. Decides: absence of library-level shared mutable state. Does NOT decide: '
+        'arguments, for every schedule and history. R1.vi: the caller-side state array isave[] of the reverse-communication estimator ?lacon2 is written before it is read on every call history (per-resume-state must-be-written dataflow), so estimates do not depend on stack residue. R10.shared: the factors and permutations handed to the solve-side routines, and the matrix arrays the caller hands to the Fortran bridge, are in no may-write set, so calls that share them read-only cannot race. Decides: absence of library-level shared mutable state. Does NOT decide: '
         'bit-identical floating-point output as such (follows only with platform determinism), uninitialised reads, '
         'thread-safety of libc malloc/stdio and of the vendor BLAS (assumed).')
     chk.assumptions = ['malloc/free/stdio of the C library and the vendor BLAS kernels are thread-safe',
@@ -60,6 +60,11 @@ def run(tier):
                     chk.ok('R1.nm', rel + '@' + cfgname, nontrivial=bool(extra))
     init_rule(chk, Program.load(which=('SRC',), cfg='tested'))
     shared_inputs_rule(chk, Program.load(which=('SRC', 'FORTRAN'), cfg='tested'))
+    from ..rules import reentry
+    chk.clause('R1.vi', 'reverse-communication state of ?lacon2 written before read on every call history')
+    prog_s = Program.load(which=('SRC',), cfg='tested')
+    for p in 'sdcz':
+        reentry.run(chk, 'R1.vi', prog_s, p, 'tested')
     chk.samples.append('positive control fixtures/r1_static_state.c -> reported mutable: calls, work (expected)')
     return chk.finish()
 
